@@ -47,6 +47,10 @@ def check_refine(case, ctx):
     # the shape may have been created with the documented alternative span search (used whenever it is evaluated)
     obj = build.make(d, find_span_func=helpers.find_span_binsearch) if case.get("binsearch") else build.make(d)
     ctx.label("binary-span-search", bool(case.get("binsearch")))
+    if case.get("binsearch") is False and len(d["P"]) % 3 == 0:
+        import copy
+        obj = copy.deepcopy(obj)          # a deep copy nobody has looked at yet is refined like any other shape
+        ctx.label("refining-a-fresh-deep-copy")
     R = build.exact_from(d, obj)
     pdim = len(d["degree"])
     dens = case["density"]
